@@ -224,10 +224,14 @@ def check_nonce(ctx):
         if b.exp and b.kind != "Closure":   # derive(Clone, Debug)
             continue
         k = b.key
+        from ..util import effective_owner
+        own = effective_owner(prog, k)      # a new helper counts as the original function(s) that use it
+        rd = {x.split("::{closure")[0] for x in readers}
+        wr_ = {x.split("::{closure")[0] for x in writers}
         if kind in ("read",):
-            ok = k in readers or k in writers
+            ok = k in readers or k in writers or (bool(own) and own <= (rd | wr_))
         else:
-            ok = k in writers or (kind == "mutref" and k in writers)
+            ok = k in writers or (bool(own) and own <= wr_)
         ctx.require(L4, ok, "%s:%s (%s)" % (b.file, line, k), "%s of Endpoint.nonce in %s" % (kind, k), [k.split("::{closure")[0], "nonce-" + kind])
     for key in ("acmed::http::post", "acmed::http::update_nonce"):
         b = prog.must_body(key)
